@@ -30,12 +30,13 @@ class Persist(Profile):
                 "add_attr": 4, "add_extras": 3, "attr_item": 1, "extras_item": 1, "rm_attr": 1,
                 "add_ns": 6, "copy": 2, "remove_child": 2, "shift": 1, "set_name": 1,
                 "delete": 0.5, "eml_seed": 0.7,
-                "rm_ns": 1, "replace_child": 1, "import_xml": 0.5}
+                "rm_ns": 1, "replace_child": 1, "import_xml": 0.5, "import_json": 0.7}
 
     def tune(self, cfg, rng):
         cfg["restart_modes"] = rng.choice([[1, 0, 0], [1, 0, 0], [2, 1, 1], [0, 1, 1]])
         cfg["universe"] = rng.choice([3, 5, 8, 12, 20, 40])
         cfg["eml_universe"] = 120
+        cfg["world_cap"] = 500
         if rng.random() < 0.6:
             cfg["alphabets"] = sorted(set(cfg["alphabets"]) | {"unicode"})
 
@@ -142,6 +143,8 @@ class Persist(Profile):
                         flags.add("restart_nonascii_text")
                 if len(cell[CH]) >= 2:
                     flags.add("restart_with_siblings")
+            if len(pre.subtree(rec["old"])) >= 250:
+                flags.add("restart_large_document")
         for fl in sorted(flags):
             bump(P, fl)
 
@@ -447,7 +450,7 @@ class PruneP(Profile):
     def weights(self, cfg, rng):
         return {"eml_seed": 8, "import_xml": 1, "prune": 14, "new": 10, "add_child": 12, "set_content": 4,
                 "add_attr": 2, "rm_attr": 1, "remove_child": 3, "set_name": 1.5, "shift": 0.5, "copy": 0.5,
-                "replace_child": 0.5, "delete": 0.3, "ro": 0.5}
+                "replace_child": 0.5, "delete": 0.3, "ro": 0.5, "import_json": 0.5}
 
     def tune(self, cfg, rng):
         cfg["seed_mode"] = rng.choice(["mixed", "mixed", "fragment"])
